@@ -1618,6 +1618,36 @@ def wrapper_probe_cases(rng, side: str):
     return out
 
 
+def dialect_probe_cases(rng, side: str):
+    """systematic sweep of dialect nesting: an outer class with / without Config.dialect (no_copy list, dict, set) and
+    ADD_DIALECT_SUPPORT around a nested plain / mixin dataclass with / without its own (empty) dialect; containers whose
+    copy decision depends only on the effective no_copy_collections of the class they sit in"""
+    inner_fields = [("seq", "list", ("atom", "int")), ("map", "dict", ("atom", "str"), ("atom", "int")),
+                    ("seq", "set", ("atom", "str")), ("seq", "list", ("seq", "list", ("atom", "int")))]
+    out = []
+    for outer_d, outer_sup, inner_base, inner_d, inner_sup, call in [
+            (0, False, "plain", None, False, None), (0, False, "dict", 1, False, None), (None, False, "plain", 0, False, None),
+            (1, True, "plain", None, True, 0), (None, True, "dict", None, False, 0), (0, True, "dict", None, True, 1)]:
+        sch = Schema()
+        sch.dialects = [["list", "dict", "set"], []]
+        sch.classes = [
+            {"name": "C0", "base": "dict", "sup": outer_sup, "dialect": outer_d,
+             "fields": [("f0", ("seq", "list", ("atom", "int"))), ("g", ("dc", 1)), ("h", ("seq", "list", ("dc", 1)))]},
+            {"name": "C1", "base": inner_base, "sup": inner_sup, "dialect": inner_d,
+             "fields": [(f"f{j}", t) for j, t in enumerate(inner_fields)]}]
+        entry = {"api": "mixin", "fmt": None}
+        if call is not None:
+            entry["call"] = call
+        c = Case()
+        c.side, c.sch, c.entry, c.top, c.focus = side, sch, entry, ("dc", 0), True
+        c.src = schema_src(sch, c.top)
+        c.src_types = ""
+        c.value_src = gen_value_src(rng, c.top, sch, 2, wire=(side == "unpack"))
+        c.call_src = entry_call_src(entry, ty_src(c.top, sch), side)
+        out.append(c)
+    return out
+
+
 def run_case(c: Case):
     """executes the call on the real library; fills c.v (argument), c.res / c.exc, snapshots"""
     mod = materialise(c.src)
@@ -2021,7 +2051,12 @@ def run(ctx: vlib.Ctx):
         crashes = []       # the model is total on conforming inputs of its grammar: the library must be, too
         pend = Pending(ctx)
         attempts = 0
+        import random as _random
+        prng = _random.Random(ctx.seed * 7919 + (18 if side == "pack" else 81))      # own stream: the main one is unchanged
         probes = fixed_cases(ctx.rng, side) + union_probe_cases(ctx.rng, side) + wrapper_probe_cases(ctx.rng, side)
+        extra = dialect_probe_cases(prng, side)
+        probes = extra + probes
+        n = n + len(extra)          # the randomly generated part of the run stays what it was
         while len(cases) < n and attempts < n * 3:
             attempts += 1
             extras = ctx.rng.random() < 0.3
